@@ -627,6 +627,28 @@ func (area) Generate(r *rng.R, thorough bool, index int) json.RawMessage {
 // ---------------------------------------------------------------------------
 // Execution
 
+// guarded runs f; false if it panics or does not return within 20 s (a power
+// iteration on a matrix that is not stochastic need not converge).  A hung
+// call keeps spinning in its goroutine until the harness exits.
+func guarded(f func()) (ok bool) {
+	done := make(chan bool, 1)
+	go func() {
+		defer func() {
+			if r := recover(); r != nil {
+				done <- false
+			}
+		}()
+		f()
+		done <- true
+	}()
+	select {
+	case ok = <-done:
+		return ok
+	case <-time.After(20 * time.Second):
+		return false
+	}
+}
+
 func (area) Execute(raw json.RawMessage) (string, *hcommon.Info, error) {
 	var h history
 	if err := json.Unmarshal(raw, &h); err != nil {
@@ -701,15 +723,12 @@ func execPR(h *history) (string, *hcommon.Info, error) {
 	orig := time.Duration(h.Orig)
 	oss := "None"
 	var ss []isc.Strategy
-	func() {
-		defer func() {
-			if r := recover(); r != nil {
-				info.Outs["panic-get-strategies"]++
-			}
-		}()
-		ss = calc.GetStrategies(m, h.SCS, orig)
+	if guarded(func() { ss = calc.GetStrategies(m, h.SCS, orig) }) {
 		oss = g.Some(stratList(ss))
-	}()
+	} else {
+		info.Outs["panic-or-hang-get-strategies"]++
+		return g.App("CasePR", prTerm(h.PR, universe), pre, scList(h.SCS), g.Z(h.Orig), oss, pre, "[]"), info, nil
+	}
 	info.Events++
 	iterated := false
 	for _, s := range ss {
@@ -750,14 +769,12 @@ func execPR(h *history) (string, *hcommon.Info, error) {
 	if largestHasSuccess {
 		for i := 0; i < n-1; i++ {
 			t := "None"
-			func() {
-				defer func() {
-					if r := recover(); r != nil {
-						info.Outs["panic-background-timeout"]++
-					}
-				}()
-				t = g.Some(g.Z(int64(calc.GetBackgroundExecutionTimeout(m, h.SCS, i, orig))))
-			}()
+			var bt time.Duration
+			if guarded(func() { bt = calc.GetBackgroundExecutionTimeout(m, h.SCS, i, orig) }) {
+				t = g.Some(g.Z(int64(bt)))
+			} else {
+				info.Outs["panic-background-timeout"]++
+			}
 			bgs = append(bgs, t)
 		}
 	}
@@ -842,16 +859,12 @@ func execSession(h *history) (string, *hcommon.Info, error) {
 	record := func(opTerm string, call func() string) {
 		gets0, rels0 := store.gets, len(store.releases)
 		out := "OutPanic"
-		func() {
-			defer func() {
-				if r := recover(); r != nil {
-					info.Outs["panic"]++
-					dead = true
-					learner = nil
-				}
-			}()
-			out = call()
-		}()
+		if !guarded(func() { out = call() }) {
+			out = "OutPanic"
+			info.Outs["panic-or-hang"]++
+			dead = true
+			learner = nil
+		}
 		rels := store.releases[rels0:]
 		for _, d := range rels {
 			if d {
@@ -995,10 +1008,9 @@ func awayFromBoundaries(h *history, msg *iscc.PreviousExecutionStats, o opJ, ext
 		clone.SizeClasses = map[uint32]*iscc.PerSizeClassStats{}
 	}
 	var ss []isc.Strategy
-	func() {
-		defer func() { recover() }()
-		ss = newPR(h.PR).GetStrategies(clone.SizeClasses, o.SCS, orig)
-	}()
+	if !guarded(func() { ss = newPR(h.PR).GetStrategies(clone.SizeClasses, o.SCS, orig) }) {
+		return r
+	}
 	for tries := 0; tries < 50; tries++ {
 		cum, ok := 0.0, true
 		for _, s := range ss {
